@@ -22,4 +22,137 @@ def lexPatterns : List (String × String) := [
   ("VALID_flags", "256")
 ]
 
+/-- the whitespace engines the `Skip` model was written against: the comment-aware engine built in
+`sql_parser.parser()`, the engine without whitespace (`NO_WHITESPACE`), and mo_parsing's standard one -/
+def wsEngines : List (String × String × String) := [
+  ("comment", "(?:[\\t-\\n\\r ]*(?:\\-\\-(?:[^\\n]*)|\\#(?:[^\\n]*)|/\\*(.*?\\*/)))*[\\t-\\n\\r ]*", "48"),
+  ("none", "", "48"),
+  ("standard", "[\\t-\\n\\r ]*", "48")]
+
+/-- exactly-compared terminals that contain letters and belong to the *spelling of a literal* (string
+introducers, the hex prefix) — the property exempts literal spelling from case-insensitivity -/
+def literalSpellingTerminals : List String := ["0x", "_ascii", "_binary", "_latin1", "_ucs2", "_utf8", "_utf8mb4"]
+
+/-- parse actions that have a Lean model (C01, C02, C06, C07, C13, C20): their failure behaviour is
+stated by theorems (`Props/C14`) -/
+def actionsModelled : List String := ["make_tree", "single_literal", "double_literal", "double_column",
+  "backtick_column", "square_column", "parse_int", "_to_bound_call", "_to_between_call", "to_union_call"]
+
+/-- parse actions without a model: shaping functions exercised by the ill-formed-edit and mutation
+oracles only.  A parse action that is in neither list is new (or renamed): the analysis of which
+inputs can make an action raise has to be redone -/
+def actionsExercised : List String := ["<lambda>", "_dict_post_parse", "_suppress_post_parse",
+  "bad_operator_on_ordered_sql", "cast_interval_call", "has_something", "list", "literal_regex", "mult",
+  "no_dashes", "output", "record_self", "scale", "to_alias", "to_array", "to_case_call",
+  "to_flat_column_type", "to_index_part", "to_insert_call", "to_interval_call", "to_interval_type",
+  "to_join_call", "to_json_call", "to_kwarg", "to_literal", "to_map", "to_match_expr", "to_option", "to_over",
+  "to_pivot_column", "to_query", "to_replace_call", "to_row", "to_select_call", "to_stack", "to_struct",
+  "to_switch_call", "to_table", "to_top_clause", "to_trim_call", "to_tuple_call", "to_unpivot_column",
+  "to_values", "to_when_call"]
+
+/-- the four public parse entry points -/
+def entryPoints : List String := ["parse", "parse_mysql", "parse_sqlserver", "parse_bigquery"]
+
+/-- `global` rebinds that are not parse state: the lazy imports of `__init__._get_or_create_parser`
+(idempotent: always the same modules) and the one-shot warning latch (affects a warning on stderr only) -/
+def benignRebinds : List String := ["__init__._utils", "__init__.ansi_string", "__init__.scrub", "__init__.sql_parser",
+  "utils.emit_warning_for_double_quotes"]
+
+def benignCrossWrites : List String := ["sql_parser.mysql_parser:=utils.emit_warning_for_double_quotes"]
+
+/-- source forms under which the default NULL node is a new object per slot -/
+def nullSlotFreshForms : List String := ["{'null': {}} if null is SQL_NULL else null"]
+
+/-- the node signatures (type|name|match|regex|actions) by which the dialect graphs may differ from the
+common one: the string-literal alternatives (double-quoted literal for MySQL / BigQuery), the identifier
+alternatives (`[x]`, dashed names, `@local`), and SQL Server's switch that turns `[ … ]` from an array
+constructor into a name.  Inspected by hand; anything else is a new dialect difference. -/
+def allowedDialectDiff : List String := [
+  "bigquery_parser/* +4 And||||",
+  "bigquery_parser/* +1 Char|||[\\$0-9@-Z_a-zÀ-ÖØ-öø-ƿ]|",
+  "bigquery_parser/* +1 Char|||[\\$@-Z_a-zÀ-ÖØ-öø-ƿ]|",
+  "bigquery_parser/* +2 Char|||[^ 0-9]|",
+  "bigquery_parser/* +1 Char|||[^\"]|",
+  "bigquery_parser/* +1 LookAhead||||",
+  "bigquery_parser/* +2 MatchFirst||||",
+  "bigquery_parser/* +1 PrecededBy||||",
+  "bigquery_parser/* +1 Regex|identifier_with_dashes||[\\$@-Z_a-zÀ-ÖØ-öø-ƿ](?:(?<=[^ 0-9])\\-(?=[^ 0-9])|[\\$0-9@-Z_a-zÀ-ÖØ-öø-ƿ])*|",
+  "bigquery_parser/* +1 Regex|||\\\"(?:\\\"\\\"|[^\"])*\\\"|double_literal",
+  "bigquery_parser/* +4 SingleCharLiteral||\"|\"|",
+  "bigquery_parser/* +1 SingleCharLiteral||-|\\-|",
+  "bigquery_parser/* +2 ZeroOrMore||||",
+  "bigquery_parser/None +4 And||||",
+  "bigquery_parser/None +1 Char|||[\\$0-9@-Z_a-zÀ-ÖØ-öø-ƿ]|",
+  "bigquery_parser/None +1 Char|||[\\$@-Z_a-zÀ-ÖØ-öø-ƿ]|",
+  "bigquery_parser/None +2 Char|||[^ 0-9]|",
+  "bigquery_parser/None +1 Char|||[^\"]|",
+  "bigquery_parser/None +1 LookAhead||||",
+  "bigquery_parser/None +2 MatchFirst||||",
+  "bigquery_parser/None +1 PrecededBy||||",
+  "bigquery_parser/None +1 Regex|identifier_with_dashes||[\\$@-Z_a-zÀ-ÖØ-öø-ƿ](?:(?<=[^ 0-9])\\-(?=[^ 0-9])|[\\$0-9@-Z_a-zÀ-ÖØ-öø-ƿ])*|",
+  "bigquery_parser/None +1 Regex|||\\\"(?:\\\"\\\"|[^\"])*\\\"|double_literal",
+  "bigquery_parser/None +4 SingleCharLiteral||\"|\"|",
+  "bigquery_parser/None +1 SingleCharLiteral||-|\\-|",
+  "bigquery_parser/None +2 ZeroOrMore||||",
+  "mysql_parser/* +6 And||||",
+  "mysql_parser/* +1 Char|||[\\$0-9@-Z_a-zÀ-ÖØ-öø-ƿ]|",
+  "mysql_parser/* +1 Char|||[\\$@-Z_a-zÀ-ÖØ-öø-ƿ]|",
+  "mysql_parser/* +2 Char|||[^ 0-9]|",
+  "mysql_parser/* +1 Char|||[^\"]|",
+  "mysql_parser/* +1 Char|||[^\\]]|",
+  "mysql_parser/* +1 LookAhead||||",
+  "mysql_parser/* +3 MatchFirst||||",
+  "mysql_parser/* +1 PrecededBy||||",
+  "mysql_parser/* +1 Regex|identifier_with_dashes||[\\$@-Z_a-zÀ-ÖØ-öø-ƿ](?:(?<=[^ 0-9])\\-(?=[^ 0-9])|[\\$0-9@-Z_a-zÀ-ÖØ-öø-ƿ])*|no_dashes",
+  "mysql_parser/* +1 Regex|||\\\"(?:\\\"\\\"|[^\"])*\\\"|double_literal",
+  "mysql_parser/* +1 Regex|||\\[(?:\\]\\]|[^\\]])*\\]|square_column",
+  "mysql_parser/* +4 SingleCharLiteral||\"|\"|",
+  "mysql_parser/* +1 SingleCharLiteral||-|\\-|",
+  "mysql_parser/* +1 SingleCharLiteral||[|\\[|",
+  "mysql_parser/* +3 SingleCharLiteral||]|\\]|",
+  "mysql_parser/* +3 ZeroOrMore||||",
+  "mysql_parser/None +6 And||||",
+  "mysql_parser/None +1 Char|||[\\$0-9@-Z_a-zÀ-ÖØ-öø-ƿ]|",
+  "mysql_parser/None +1 Char|||[\\$@-Z_a-zÀ-ÖØ-öø-ƿ]|",
+  "mysql_parser/None +2 Char|||[^ 0-9]|",
+  "mysql_parser/None +1 Char|||[^\"]|",
+  "mysql_parser/None +1 Char|||[^\\]]|",
+  "mysql_parser/None +1 LookAhead||||",
+  "mysql_parser/None +3 MatchFirst||||",
+  "mysql_parser/None +1 PrecededBy||||",
+  "mysql_parser/None +1 Regex|identifier_with_dashes||[\\$@-Z_a-zÀ-ÖØ-öø-ƿ](?:(?<=[^ 0-9])\\-(?=[^ 0-9])|[\\$0-9@-Z_a-zÀ-ÖØ-öø-ƿ])*|no_dashes",
+  "mysql_parser/None +1 Regex|||\\\"(?:\\\"\\\"|[^\"])*\\\"|double_literal",
+  "mysql_parser/None +1 Regex|||\\[(?:\\]\\]|[^\\]])*\\]|square_column",
+  "mysql_parser/None +4 SingleCharLiteral||\"|\"|",
+  "mysql_parser/None +1 SingleCharLiteral||-|\\-|",
+  "mysql_parser/None +1 SingleCharLiteral||[|\\[|",
+  "mysql_parser/None +3 SingleCharLiteral||]|\\]|",
+  "mysql_parser/None +3 ZeroOrMore||||",
+  "sqlserver_parser/* +1 And|create_array|||to_array",
+  "sqlserver_parser/* +1 Char|||[^\\]]|",
+  "sqlserver_parser/* +1 MatchFirst||||",
+  "sqlserver_parser/* +1 Regex|||\\[(?:\\]\\]|[^\\]])*\\]|square_column",
+  "sqlserver_parser/* +1 SingleCharLiteral||[|\\[|",
+  "sqlserver_parser/* +3 SingleCharLiteral||]|\\]|",
+  "sqlserver_parser/* +1 Word|identifier||[\\$@-Z_a-zÀ-ÖØ-öø-ƿ][\\$0-9@-Z_a-zÀ-ÖØ-öø-ƿ]*|",
+  "sqlserver_parser/* -2 And||||",
+  "sqlserver_parser/* -1 And||||record_self,output",
+  "sqlserver_parser/* -1 Group||||",
+  "sqlserver_parser/* -1 MatchFirst|create_array|||to_array",
+  "sqlserver_parser/* -1 SingleCharLiteral||,|,|",
+  "sqlserver_parser/* -1 Suppress|||,|",
+  "sqlserver_parser/None +1 And|create_array|||to_array",
+  "sqlserver_parser/None +1 Char|||[^\\]]|",
+  "sqlserver_parser/None +1 MatchFirst||||",
+  "sqlserver_parser/None +1 Regex|||\\[(?:\\]\\]|[^\\]])*\\]|square_column",
+  "sqlserver_parser/None +1 SingleCharLiteral||[|\\[|",
+  "sqlserver_parser/None +3 SingleCharLiteral||]|\\]|",
+  "sqlserver_parser/None +1 Word|identifier||[\\$@-Z_a-zÀ-ÖØ-öø-ƿ][\\$0-9@-Z_a-zÀ-ÖØ-öø-ƿ]*|",
+  "sqlserver_parser/None -2 And||||",
+  "sqlserver_parser/None -1 And||||record_self,output",
+  "sqlserver_parser/None -1 Group||||",
+  "sqlserver_parser/None -1 MatchFirst|create_array|||to_array",
+  "sqlserver_parser/None -1 SingleCharLiteral||,|,|",
+  "sqlserver_parser/None -1 Suppress|||,|"]
+
 end MoSql.Ref
